@@ -87,7 +87,10 @@ def programs(draw, tier):
         return draw(cond_programs())
     if draw(st.integers(0, 9)) == 0:
         return draw(interrupt_programs())
-    nev = draw(st.integers(1, 5))
+    nown = draw(st.integers(1, 5))       # events that the processes trigger themselves
+    # ... and events triggered by `other.trigger` registered as a callback of another event (value / failure passed on)
+    nchain = draw(st.integers(1, 2)) if draw(st.integers(0, 3)) == 0 else 0
+    nev = nown + nchain
     nflags = 2
     nproc = draw(st.integers(1, 5 if big else 4))
     phases = draw(st.permutations([1, 2, 3, 5, 6, 7, 9, 11, 13]))[:nproc]
@@ -105,10 +108,10 @@ def programs(draw, tier):
             elif r < 8:
                 out.append({'op': 'wait', 'ev': draw(st.integers(0, nev - 1))})
             elif r < 11:
-                out.append({'op': 'succeed', 'ev': draw(st.integers(0, nev - 1)), 'v': draw(st.sampled_from([None, 0, False, 2, 'b']))})
+                out.append({'op': 'succeed', 'ev': draw(st.integers(0, nown - 1)), 'v': draw(st.sampled_from([None, 0, False, 2, 'b']))})
             elif r < 12:
                 xid[0] += 1
-                k = draw(st.integers(0, nev - 1))
+                k = draw(st.integers(0, nown - 1))
                 failed_events.add(k)
                 out.append({'op': 'fail', 'ev': k, 'x': xid[0]})
             elif r < 14:
@@ -139,8 +142,12 @@ def programs(draw, tier):
                     # a sub-process whose generator ends before its first yield
                     out[-1]['child'] = {'name': 'c%d' % child_n[0], 'noyield': True,
                                         'steps': [{'op': 'return', 'v': draw(st.sampled_from([0, 'r', 9, None]))}]}
+                    if draw(st.integers(0, 2)) == 0:
+                        # ... by raising
+                        xid[0] += 1
+                        out[-1]['child']['steps'] = [{'op': 'raise', 'x': xid[0]}]
             elif r < 18:
-                k = draw(st.sampled_from(['delay', 'flag', 'coro']))
+                k = draw(st.sampled_from(['delay', 'flag', 'coro', 'coro', 'coro_fail']))
                 s = {'op': 'native', 'kind': k}
                 if k == 'flag':
                     s['i'] = draw(st.integers(0, nflags - 1))
@@ -148,6 +155,9 @@ def programs(draw, tier):
                     s['d'] = draw(st.integers(1, 3))
                     if k == 'coro':
                         s['v'] = draw(st.sampled_from([None, 3, 'n']))
+                    elif k == 'coro_fail':
+                        xid[0] += 1
+                        s['x'] = xid[0]
                 out.append(s)
             elif r < 19:
                 out.append({'op': 'setflag', 'i': draw(st.integers(0, nflags - 1))})
@@ -167,6 +177,12 @@ def programs(draw, tier):
     prog = {'nev': nev, 'nflags': nflags, 'procs': procs, 't0': draw(st.sampled_from([0, 0, 5, -5, -2.5])),
             'callbacks': draw(st.lists(st.integers(0, nev - 1), max_size=3)),
             'defusers': draw(st.lists(st.integers(0, nev - 1), max_size=1)) if draw(st.integers(0, 2)) == 0 else []}
+    if nchain:
+        # every chained event has exactly one source, an event with a smaller number
+        prog['chains'] = [[draw(st.integers(0, b - 1)), b] for b in range(nown, nev)]
+        for (a, b) in prog['chains']:
+            if a in failed_events:
+                failed_events.add(b)
     if draw(st.integers(0, 3)) == 0:
         prog['cb_interrupts'] = [[draw(st.integers(0, nev - 1)), draw(st.sampled_from(names)), draw(st.sampled_from(['cb', None, 3]))]
                                  for _ in range(draw(st.integers(1, 2)))]
@@ -216,7 +232,8 @@ class C18(Check):
             'depend on same-step order are discarded. non-trivial = >=2 processes interacting through an event, interrupt '
             'or sub-process; distinct by sha1. Also: conditions built by operators / classes / a custom evaluation function and '
             'read through the mapping interface of their value, interrupts issued by event callbacks, negative initial times, native '
-            'activities that handle a failure and go on next to others that die of it, exact until dates.')
+            'activities that handle a failure and go on next to others that die of it, exact until dates; yielded native coroutines that fail, '
+            'sub-processes that raise before their first yield, events triggered through `other.trigger` as a callback (chained outcomes).')
     budgets = {'quick': dict(examples=1600, procs=4), 'thorough': dict(examples=200000, procs=16)}
     level_text = ('Model-based differential: per-process logs (step, env.now, value | exception | interrupt cause), callback '
                   'invocations, second-trigger errors, the result of env.run and env.now afterwards must equal the reference '
@@ -386,6 +403,16 @@ class C18(Check):
                              kind, k, t, prog['watch_hold'], end, prog.get('careless')))
                 out.features.add('careless_watcher')
         out.nontrivial = interacting and len(prog['procs']) >= 2
+        for mp in model.procs.values():
+            for (i, k, t, v) in mp.log:
+                s_ = mp.spec['steps'][i] if 0 <= i < len(mp.spec['steps']) else {}
+                if k == 'raised' and s_.get('kind') == 'coro_fail':
+                    out.features.add('yielded_coroutine_failed')
+                if k == 'raise' and mp.spec.get('noyield'):
+                    out.features.add('raised_before_first_yield')
+        if any(model.events[b].state is not None for (a, b) in prog.get('chains', ())):
+            out.features.add('chained_trigger_' + ('ok' if all(
+                model.events[b].state is None or model.events[b].state[0] == 'ok' for (a, b) in prog['chains']) else 'fail'))
         if prog.get('until') is not None:
             out.features.add('until_' + ('event' if isinstance(prog['until'], list) else 'time'))
         if want['outcome'] != 'ok':
